@@ -11,8 +11,8 @@ open MongoModel MongoModel.Spec
 open MongoModel.Proofs.C09Lemmas (step_insert_one step_insert_many step_update_one step_update_many
   step_replace_one step_delete_one step_delete_many step_find step_count step_distinct)
 
-theorem step_uniqS (cfg : Cfg) (now : Int) (c : Coll) (op : Val) (hU : UniqS c) (hP : PfStable c)
-    (hK : KeysDistinctSym c) : UniqS (stepColl cfg now c op).1 := by
+theorem step_uniqS (cfg : Cfg) (now : Int) (c : Coll) (op : Val) (hU : UniqS c) :
+    UniqS (stepColl cfg now c op).1 := by
   have hs := stepColl.eq_def cfg now c op
   split at hs
   case h_1 d =>
@@ -38,19 +38,19 @@ theorem step_uniqS (cfg : Cfg) (now : Int) (c : Coll) (op : Val) (hU : UniqS c) 
     simp only [step_update_one]
     cases validateUpdate u with
     | error e => exact hU
-    | ok x => cases x; exact uniqS_applyUpdate cfg now c _ f u _ _ _ hU hP hK rfl
+    | ok x => cases x; exact uniqS_applyUpdate cfg now c _ f u _ _ _ hU rfl
   case h_4 f u upsert =>
     clear hs
     simp only [step_update_many]
     cases validateUpdate u with
     | error e => exact hU
-    | ok x => cases x; exact uniqS_applyUpdate cfg now c _ f u _ _ _ hU hP hK rfl
+    | ok x => cases x; exact uniqS_applyUpdate cfg now c _ f u _ _ _ hU rfl
   case h_5 f u upsert =>
     clear hs
     simp only [step_replace_one]
     cases validateReplace u with
     | error e => exact hU
-    | ok x => cases x; exact uniqS_applyUpdate cfg now c _ f u _ _ _ hU hP hK rfl
+    | ok x => cases x; exact uniqS_applyUpdate cfg now c _ f u _ _ _ hU rfl
   case h_6 f => simp only [step_delete_one]; exact hU.sub (sub_delete now c f false)
   case h_7 f => simp only [step_delete_many]; exact hU.sub (sub_delete now c f true)
   case h_8 f => simp only [step_find]; exact hU.sub (sub_find now c f)
